@@ -100,10 +100,11 @@ func checkC05(c *Ctx) {
 	checkEmitRules(c, "C05.R2.coverage", ev, serializerRules)
 	checkSerializerPairs(c, ev)
 	checkRangeFilters(c, "C05.R1.range-filters", ev, reviewedRangeFilters, 25)
+	checkSingleSuccessExit(c, "C05.R2.single-success-exit", ev)
 	checkSerializerReceivers(c, ev)
 	checkMemberCopies(c, ev)
 	checkDecodeTargets(c, ev)
-	checkRequiredExact(c, gen)
+	checkRequiredExact(c, "C05.R1.required-exact", gen)
 	checkDecoders(c, ev, gen)
 	checkReceiverAssignmentOrder(c, ev)
 	checkDiscriminatorAgreement(c, "C05.R4.discriminator", gen)
@@ -479,8 +480,7 @@ func checkMemberCopies(c *Ctx, ev *tmpl.Evaluator) {
 
 // checkRequiredExact: property names are case-sensitive; whether a property is required is decided
 // by exact comparison with the schema's `required` list.
-func checkRequiredExact(c *Ctx, gen *packages.Package) {
-	rule := "C05.R1.required-exact"
+func checkRequiredExact(c *Ctx, rule string, gen *packages.Package) {
 	c.Rule(rule, "no case-insensitive matching of a name against a schema's Required list", 1)
 	info := gen.TypesInfo
 	n := 0
@@ -547,4 +547,52 @@ func checkDecodeTargets(c *Ctx, ev *tmpl.Evaluator) {
 	if n == 0 {
 		c.Unk(rule, "serializer templates › json.Unmarshal calls", "", "no call with a simple target found")
 	}
+}
+
+// checkSingleSuccessExit: a generated decoder reports success once, after its last store. A
+// `return nil` before that leaves out whatever the statements after it would have stored — the
+// additional properties, the members of an allOf, the items of a tuple — for the inputs that
+// take that exit.
+func checkSingleSuccessExit(c *Ctx, rule string, ev *tmpl.Evaluator) {
+	c.Rule(rule, "in the serializer templates, `return nil` is the last statement of its function and occurs nowhere else", 5)
+	n := 0
+	for _, name := range ev.F.Names() {
+		t := ev.F.Trees[name]
+		if t == nil || t.Tree == nil || t.Tree.Root == nil || !strings.Contains(t.File, "/templates/serializers/") {
+			continue
+		}
+		l := tmpl.Linearise(t)
+		lines := strings.Split(l.Text, "\n")
+		fn, ord, fnNo := "", 0, 0
+		for i, ln := range lines {
+			if strings.HasPrefix(ln, "func ") {
+				fnNo++
+				fn = ln
+				if j := strings.Index(fn, "{"); j > 0 {
+					fn = strings.TrimSpace(fn[:j])
+				}
+				fn = regexp.MustCompile(`⟦[^⟧]*⟧`).ReplaceAllString(fn, "…")
+				ord = 0
+				continue
+			}
+			if strings.TrimSpace(ln) != "return nil" || fn == "" {
+				continue
+			}
+			ord++
+			n++
+			// the next line that holds Go text closes the function
+			last := false
+			for _, nx := range lines[i+1:] {
+				s := strings.TrimSpace(regexp.MustCompile(`⟦[^⟧]*⟧`).ReplaceAllString(nx, ""))
+				if s == "" {
+					continue
+				}
+				last = nx == "}" || strings.HasPrefix(nx, "}")
+				break
+			}
+			c.Check(last, rule, fmt.Sprintf("%s › function %d %s › return nil #%d ends the function", t.Asset, fnNo, fn, ord), t.File, "last statement",
+				fmt.Sprintf("%s reports success before its last statement: for the documents that take this exit, what the statements after it store (additional properties, allOf members, tuple items) is left out, and the model no longer round-trips", fn))
+		}
+	}
+	c.Analysed("success exits of generated (un)marshallers", n)
 }
